@@ -65,6 +65,7 @@ PROPS = {
     "C06": dict(
         domain="world", module="Props.C06",
         theorems=["C06_ascending_once", "C06_exactly_the_intersection", "C06_membership_per_member_kind",
+                  "C06_bit_set_combinations",
                   "C06_join_visits_intersection", "C06_early_stop_is_a_prefix", "C06_optional_reported_correctly",
                   "C06_lending_same_indices", "C06_lending_lookup_by_entity", "C06_lending_lookup_by_index",
                   "C06_any_storage_kind_joins_like_the_map", "C06_same_join_under_both_allocators",
